@@ -39,12 +39,26 @@ def scan_sites(rep, prog):
             # storing a field of a local object / self is an ordinary attribute store
             if cs.arg0_imported or not cs.arg0_plain:
                 dyn.append(cs)
+        elif short == "vars" and len(cs.node.args) == 1 and not cs.arg0_imported and _only_formats(cs.node):
+            # vars(obj) of a local object handed straight to str.format_map / str.format(**..): the mapping is only read by
+            # the formatter, nothing can be called or rebound through it
+            pass
         elif short in effects.DYNAMIC or short.startswith("subprocess."):
             dyn.append(cs)
         if short == "getattr" and cs.node.args and isinstance(cs.node.args[0], ast.Name) and cs.node.args[0].id in ("os", "shutil", "pathlib"):
             dyn.append(cs)
     rep.count("call sites scanned", len(effects.call_sites(prog)))
     return sites, dyn
+
+
+def _only_formats(call):
+    """the value of `call` is consumed as the mapping of s.format_map(<call>) or s.format(**<call>) and nowhere else"""
+    p = getattr(call, "_parent", None)
+    if isinstance(p, ast.keyword) and p.arg is None:
+        pp = getattr(p, "_parent", None)
+        return isinstance(pp, ast.Call) and isinstance(pp.func, ast.Attribute) and pp.func.attr == "format"
+    return isinstance(p, ast.Call) and isinstance(p.func, ast.Attribute) and p.func.attr == "format_map" and \
+        list(p.args) == [call] and not p.keywords
 
 
 def run(rep, prog, thorough):
